@@ -43,6 +43,13 @@ func newTokenizer(kind string) tokenizers.ITokenizer {
 		t.SetCharacterState('/', '/', t.CommentState())
 		return t
 	}
+	if strings.HasPrefix(kind, "csvcfg|") { // csvcfg|<separators>|<quote symbols>
+		parts := strings.SplitN(kind, "|", 3)
+		t := csv.NewCsvTokenizer()
+		t.SetFieldSeparators([]rune(parts[1]))
+		t.SetQuoteSymbols([]rune(parts[2]))
+		return t
+	}
 	panic("unknown tokenizer kind " + kind)
 }
 
@@ -64,6 +71,19 @@ func setOptions(t tokenizers.ITokenizer, mask int) {
 	t.SetMergeWhitespaces(mask&optMergeWhitespaces != 0)
 	t.SetUnifyNumbers(mask&optUnifyNumbers != 0)
 	t.SetDecodeStrings(mask&optDecodeStrings != 0)
+}
+
+// setOptionsReversed reaches the same option set by another route: every option is first switched to the
+// opposite of what is wanted, then the setters are called in the reverse order of setOptions.
+func setOptionsReversed(t tokenizers.ITokenizer, mask int) {
+	setOptions(t, ^mask&127)
+	t.SetDecodeStrings(mask&optDecodeStrings != 0)
+	t.SetUnifyNumbers(mask&optUnifyNumbers != 0)
+	t.SetMergeWhitespaces(mask&optMergeWhitespaces != 0)
+	t.SetSkipEof(mask&optSkipEof != 0)
+	t.SetSkipComments(mask&optSkipComments != 0)
+	t.SetSkipWhitespaces(mask&optSkipWhitespaces != 0)
+	t.SetSkipUnknown(mask&optSkipUnknown != 0)
 }
 
 func optNames(mask int) string {
